@@ -10,6 +10,7 @@ import progs
 from vlib import Inconclusive
 
 META = {
+    'category': 'fault_enumeration',
     'technique': 'TLA+ session monitor ProgMon.tla (fault clauses: surfaces-as-error, carries-message, bounded retry, transient-is-retried, driver-survives, session-still-usable) judging recorded runs of programs with a fault injected at every user-function call site, each run in a child process on both executors',
     'level_text': 'fault enumeration judged by a TLA+ monitor: for every user-function call site of the operator set (reader, writer, map, filter, flatmap, fold, reduce combiner, partitioner, scan callback) x failure mode (error, temporary error, panic, out-of-range partition) x persistence x position (first call, later call, beyond a 128-row vector) x executor configuration (local; bigmachine with and without machine combiners), the program is run in a real session inside a child process, followed by a healthy run in the same session; TLC judges Run\'s error, its message, elapsed outcome (no hang / unbounded retry), process survival and the follow-up run',
     'level_note': 'each scenario runs in a child process so that a driver crash is an observation; "does not hang" is decided by a 20 s context deadline per run (a run that only ends because the deadline expired counts as hanging)',
